@@ -297,6 +297,10 @@ class Interp:
             if e.id in self.globals:
                 v = self.globals[e.id]
             else:
+                import builtins as _bi
+                if hasattr(_bi, e.id):
+                    # a Python builtin the engine has no model for: the program is fine, the engine is not
+                    raise Unsupported(f"builtin {e.id}() is not modelled (line {e.lineno})")
                 raise Raised('NameError', e.lineno, e.id, implicit=True)
         if isinstance(v, Undefined):
             raise Unsupported(f"read of loop-local variable {e.id} after a cut loop (line {e.lineno})")
